@@ -196,8 +196,12 @@ func (p *Proxy) Serve(l net.Listener) error {
 			// Returning closes the listener (deferred), and a listener may share state
 			// with the connections it accepted: trafficshape.Listener closes the
 			// buckets all its connections write through. Let the exchanges that are
-			// still in flight finish first.
+			// still in flight finish first. Like Close, wait under connsMu: another
+			// accept loop of this proxy may be about to register a connection, and
+			// an Add that runs while this Wait is returning makes the WaitGroup panic.
+			p.connsMu.Lock()
 			p.conns.Wait()
+			p.connsMu.Unlock()
 			return nil
 		}
 
